@@ -22,6 +22,7 @@ ENTRIES = [(REL, "FSA." + m) for m in (
 
 def run(ctx):
     ctx.do(F.rule_md1)
+    ctx.do(F.rule_n2)
     ctx.do(F.rule_elist1)
     ctx.do(F.rule_retarget1)
     ctx.do(F.rule_hid1)
